@@ -153,6 +153,10 @@ def gen_scripted(ctx):
     for n in range(6 if quick else 40):
         c = Case("healthy%d" % n, ndirs=3)
         c.add("setdir", dir="$D0")
+        if n % 3 == 0:
+            c.store("setconf", cfg=cfg(rng, "small"))
+            c.store("setconf", cfg=cfg(rng, "small", bad=True))     # proto.Marshal fails: rollback, no system call
+            c.store("setgen", gen=rng.randrange(1, 1 << 31))
         for _ in range(rng.randrange(3, 9)):
             if rng.random() < 0.2:
                 c.add("setdir", dir="$D%d" % rng.randrange(0, 2))
@@ -213,9 +217,11 @@ def gen_scripted(ctx):
         c.add("mount_tmpfs", dir="$D0", size="256k")
         c.add("setdir", dir="$D0")
         c.store("setconf", cfg=cfg(rng, "small"))
-        c.add("fill", dir="$D0", k=rng.choice([0, 100, 4096, 5000, 9000]))
+        c.add("fill", dir="$D0", k=rng.choice([0, 100]))            # no free page: nothing of the write lands
         c.env["full"].add(0)
         c.store("setconf", cfg=cfg(rng, "medium"))
+        c.add("fill", dir="$D0", k=4096)                            # one free page: a prefix lands
+        c.store("setconf", cfg=cfg(rng, "medium", ndecoys=rng.randrange(125, 180)))
         rand_store(c, rng, "medium")
         c.add("remount_ro", dir="$D0")
         c.env["ro"].add(0)
